@@ -375,6 +375,9 @@ func writeFaults(r *RunCtx) {
 		faults = append(faults, pathFault{"rlimit", uint64(L)}, pathFault{"devfull", 0}, pathFault{"devnull", 0}, pathFault{"dir", 0}, pathFault{"noparent", 0})
 		for _, f := range faults {
 			p := preparePath(r, f)
+			if f.kind == "rlimit" {
+				prefill(r, p, L, ref.Bytes())
+			}
 			var err error
 			run := func() { err = sb.Persist(p) }
 			if f.kind == "rlimit" {
@@ -395,6 +398,7 @@ func writeFaults(r *RunCtx) {
 		if doStrace {
 			for _, sf := range straceFaults {
 				sf := sf
+				pre := drawPrefill(r, L, nil)
 				r.straceChildOp(func(path string) straceOutcome {
 					err := sb.Persist(path)
 					o := straceOutcome{}
@@ -407,6 +411,7 @@ func writeFaults(r *RunCtx) {
 					continue
 				}
 				target := r.path("strace")
+				writePrefill(r, target, L, pre)
 				out, ok := r.runStraceChild(sf, target, sidx)
 				sidx++
 				what := fmt.Sprintf("Persist(%s, %d bytes) under %s", h.Name, L, sf)
@@ -449,6 +454,7 @@ func writeFaults(r *RunCtx) {
 			}
 		}
 		p := r.path("retry")
+		prefill(r, p, L, ref.Bytes())
 		if err := sb.Persist(p); err != nil {
 			r.fail("C17.retry", "Persist", "fault-free Persist after the failed attempts failed: %v", err)
 		}
@@ -470,6 +476,9 @@ func writeFaults(r *RunCtx) {
 		live0 := engineLive()
 		for _, f := range faults {
 			p := preparePath(r, f)
+			if f.kind == "rlimit" {
+				prefill(r, p, L, nil)
+			}
 			var err error
 			var maps [][]uint64
 			var size uint64
@@ -495,6 +504,7 @@ func writeFaults(r *RunCtx) {
 		if doStrace {
 			for _, sf := range straceFaults {
 				sf := sf
+				pre := drawPrefill(r, L, nil)
 				r.straceChildOp(func(path string) straceOutcome {
 					maps, size, err := plugin.Merge(sc.segs, sc.drops, path, nil, &statsReporter{})
 					o := straceOutcome{Maps: maps, Size: size}
@@ -507,6 +517,7 @@ func writeFaults(r *RunCtx) {
 					continue
 				}
 				target := r.path("strace")
+				writePrefill(r, target, L, pre)
 				out, ok := r.runStraceChild(sf, target, sidx)
 				sidx++
 				what := fmt.Sprintf("Merge(%s) under %s", sc.desc, sf)
@@ -531,6 +542,7 @@ func writeFaults(r *RunCtx) {
 			}
 		}
 		p := r.path("retry")
+		prefill(r, p, L, nil)
 		maps, size, err := plugin.Merge(sc.segs, sc.drops, p, nil, nil)
 		if err != nil {
 			r.fail("C17.retry", "Merge", "fault-free Merge after the failed attempts failed: %v", err)
@@ -559,6 +571,58 @@ func (w *World) pickBuilt() *SegH {
 		return h
 	}
 	return built[w.r.ch.Choose(len(built), "io.pickbuilt")]
+}
+
+// prefill gives the path a history: with probability 1/3 a regular file is
+// already there when the operation starts - empty, shorter or longer than the
+// output of length L, junk or (when ref is given) the bytes of an earlier
+// complete output followed by more. The property does not depend on what was
+// at the path before: a failure leaves no file, a success leaves exactly the
+// complete output.
+func prefill(r *RunCtx, p string, L int, ref []byte) {
+	writePrefill(r, p, L, drawPrefill(r, L, ref))
+}
+
+// drawPrefill only draws (nil: nothing at the path); the strace child draws the
+// same choices as its parent but does not write.
+func drawPrefill(r *RunCtx, L int, ref []byte) []byte {
+	c := r.ch
+	if !c.Prob(1, 3, "io.prefill") {
+		return nil
+	}
+	var n int
+	switch c.Choose(4, "io.prefill.kind") {
+	case 0:
+		n = 0
+	case 1:
+		n = L / 2
+	case 2:
+		n = L + 1 + L/3
+	default:
+		n = 3*L + 4096
+	}
+	b := make([]byte, n)
+	for i := range b {
+		b[i] = byte(i*131 + 7)
+	}
+	if ref != nil && c.Bool("io.prefill.image") {
+		copy(b, ref)
+	}
+	return b
+}
+
+func writePrefill(r *RunCtx, p string, L int, b []byte) {
+	if b == nil {
+		return
+	}
+	if err := os.WriteFile(p, b, 0o600); err != nil {
+		panic(err)
+	}
+	if len(b) > L {
+		r.count("probe.io.over-longer-file")
+	} else {
+		r.count("probe.io.over-shorter-file")
+	}
 }
 
 // judgePathOp applies the C17 oracle to one path-based operation.
